@@ -286,7 +286,15 @@ def work_words(task):
         tok = "V%d" % drv.open(os.path.join("/repo/tests", fn), False)
         prefixes = ["(1, \"a\", [], [1], 0x10, true)", "1 (2, \"ab\", [1, 2])", "(\"ab\" \"a\", [1] [], 1 2, 2 1, \"a\" 1)",
                     "entry", "entry attribute", "unit", "symbol", "entry ?(@AT_location) @AT_location", "entry @AT_location elem",
-                    "entry abbrev", "entry abbrev attribute", "entry address", "raw entry", "entry dup parent", "entry dup"]
+                    "entry abbrev", "entry abbrev attribute", "entry address", "raw entry", "entry dup parent", "entry dup",
+                    # two operands of the DWARF types: address sets of 0, 1, 2 and 3 runs in every combination (overlapping or
+                    # not, the one below with fewer or with more runs than the one on top), a set and an address, two DIEs,
+                    # two attributes, a DIE and one of its attributes
+                    "(0 0x25 aset, 0x10 0x20 aset 0x40 0x50 aset add, 0 0 aset, 1 2 aset 4 5 aset add 7 9 aset add) "
+                    "(0x20 0x30 aset 0x40 0x50 aset add, 0x22 0x24 aset, 0x100 0x101 aset 3 add 8 add, 0 0 aset)",
+                    "(0 0x25 aset, 0x10 0x20 aset 0x40 0x50 aset add, 0 0 aset) (0x10, 0x30, 0x45, 0)",
+                    "entry (|D| D D child)", "entry (|D| D attribute (pos < 2) D attribute (pos < 2))", "entry (|D| D D attribute (pos < 2))",
+                    "entry address (pos < 6) (|A| A A 4 add, A 0 0 aset, 0x10000 0x10004 aset A)"]
         base = {}
         for P in prefixes:
             r = run(drv, P, tok)
@@ -355,8 +363,14 @@ def main(tier, seed):
     ev = Evidence()
     per = max(25, n // 48)
     ev.merge(run_pool(work_core, [(seed, s, min(per, n - s)) for s in range(0, n, per)]))
-    # ~700 assertion pairs in the vocabularies
-    nw = 760
+    # every assertion pair of the vocabularies (973 on the pinned tree; counted, not assumed)
+    d = Driver()
+    try:
+        words = set(d.vocab("core") + d.vocab("dw"))
+    finally:
+        d.kill()
+    nw = len([w for w in words if w.startswith("?") and ("!" + w[1:]) in words])
+    ev.extra["assertion_word_pairs"] = nw
     step = 48 if tier == "quick" else 24
     files = SAMPLES[:2] if tier == "quick" else SAMPLES
     ev.merge(run_pool(work_words, [(lo, lo + step, files[(lo // step) % len(files)]) for lo in range(0, nw, step)]))
